@@ -84,6 +84,23 @@ def check(R):
                 R.expect('P6', gs.fn, 'group mode: encrypted = true, rollover = true', a[2].get('k', {}).get('v') == 1 and a[3].get('k', {}).get('v') == 1,
                          'post_recv(ctr, true, true)', f'args {a[2]} {a[3]}', gs.where(t.bb))
             R.callers_confined('P1', 'transport::dedup::GroupCtrStore::post_recv', {'transport::session::Sessions::get_or_create_for_group_rx'})
+            # every group DATA message passes the per-sender window: it never joins an existing session (the ephemeral RX session of an
+            # earlier message of the same sender matches is_for_rx) - in decode_packet the session lookup get_for_rx is cut by
+            # "not a group-session packet, or a control message"
+            dp = closure_in(R, 'transport::TransportRunner::decode_packet', ['Sessions::get_for_rx', 'Sessions::get_or_create_for_group_rx'])
+
+            def not_group_data():
+                e = set()
+                for t in dp.calls('transport::plain_hdr::PlainHdr::is_group_session'):
+                    e |= prims.track_result(F, dp, t).failure
+                for t in dp.calls('transport::plain_hdr::PlainHdr::is_control_msg'):
+                    e |= prims.track_result(F, dp, t).success
+                if not e:
+                    from facts import GuardMissing
+                    raise GuardMissing(f'{dp.fn}: no is_group_session() / is_control_msg() test')
+                return e
+            R.cut('P2', dp, 'match the packet to an existing session (get_for_rx)', call_bbs(dp, 'transport::session::Sessions::get_for_rx'),
+                  'the packet is not a group data message', not_group_data)
             # per-sender tracking: the window consulted is the one of exactly this (fabric, source node) - every use of an existing
             # entry's window is cut by BOTH equality tests (a sender of another fabric with the same node id has its own window)
             from common import equality_tests
